@@ -78,6 +78,16 @@ struct Obj { void* p; char kind; bool alive; int owner; };
 union Arg { void* p; double d; int i; unsigned u; size_t z; };
 
 static GEOSContextHandle_t H;
+// a second, independent context: every third call of a program goes through it (handles are per thread, objects are not bound to
+// them); HC = the context of the current call.  The harness's own bookkeeping calls always use H.
+static GEOSContextHandle_t H2, HC;
+// ---- the interruption API (global state).  Mirror of C12/Interrupt.v: i_pending = a request made by GEOS_interruptRequest() that
+// was neither cancelled nor delivered; i_cb / i_budget = a callback is registered and will still make that many requests.
+static bool i_pending = false, i_cb = false; static int i_budget = 0;
+static int i_cb_calls = 0, i_cb_requests = 0;       // during the current call
+static int i_delivered = 0, i_after = 0;             // calls interrupted; polling-capable calls made after a delivery in the same program
+static void i_callback() { i_cb_calls++; if (i_budget > 0) { i_budget--; i_cb_requests++; GEOS_interruptRequest(); } }
+static const int CBK[] = {-1, 1, 0, 2, 1, -1};      // numeric class 9: -1 = unregister, otherwise the number of requests the callback makes
 static GEOSWKBWriter* WW;
 static int progress_fd = -1;
 static volatile int cur_call = -1;
@@ -158,7 +168,7 @@ struct Ret { void* p; long i; double d; double out; };
 static Ret invoke(void* fn, const std::string& sig, std::vector<Arg>& a) {
     Ret r; r.p = nullptr; r.i = 0; r.d = 0; r.out = 0;
     double od = 0; unsigned ou = 0;
-    GEOSContextHandle_t h = H;
+    GEOSContextHandle_t h = HC;
 #define F(rt, ...) ((rt (*)(GEOSContextHandle_t, ##__VA_ARGS__))fn)
     typedef void* P; typedef double Dd; typedef int I; typedef unsigned U; typedef size_t Z;
     if (sig == "p:") r.p = F(P)(h);
@@ -217,6 +227,10 @@ static int run_program(const std::string& line, int fd) {
     H = GEOS_init_r();
     GEOSContext_setErrorMessageHandler_r(H, on_error, nullptr);
     GEOSContext_setNoticeMessageHandler_r(H, on_notice, nullptr);
+    H2 = GEOS_init_r();                      // created before any interrupt call: GEOS_init_r() itself cancels pending requests
+    GEOSContext_setErrorMessageHandler_r(H2, on_error, nullptr);
+    GEOSContext_setNoticeMessageHandler_r(H2, on_notice, nullptr);
+    HC = H; GEOS_interruptRegisterCallback(nullptr); GEOS_interruptCancel(); i_pending = i_cb = false; i_budget = 0;
     WW = GEOSWKBWriter_create_r(H); GEOSWKBWriter_setOutputDimension_r(H, WW, 4); GEOSWKBWriter_setIncludeSRID_r(H, WW, 1);
     signal(SIGALRM, on_alarm); signal(SIGPROF, on_alarm);
     std::string prog = line, poolspec;
@@ -242,6 +256,7 @@ static int run_program(const std::string& line, int fd) {
                 case '0': x.d = PICK(DBL, idx); break; case '1': x.i = PICK(INT, idx); break; case '2': x.u = PICK(UNS, idx); break;
                 case '3': x.u = idx % NWKT; break; case '4': x.p = (void*)PICK(PAT, idx); break; case '5': x.i = PICK(TYP, idx); break;
                 case '6': x.i = PICK(SRID, idx); break; case '7': x.u = PICK(SIZ, idx); break; case '8': x.u = PICK(DIM, idx); break;
+                case '9': x.i = PICK(CBK, idx); break;
                 default: x.u = idx;
                 }
                 objh.push_back(-1);
@@ -255,7 +270,7 @@ static int run_program(const std::string& line, int fd) {
           for (size_t q = 0; q < a.size(); q++) {
               char b[80]; char sc = q < shape.size() ? shape[q] : '?';
               if (objh[q] >= 0) snprintf(b, sizeof b, "h%d", objh[q]);
-              else if (sc == '0') snprintf(b, sizeof b, "%g", a[q].d); else if (sc == '1' || sc == '5' || sc == '6') snprintf(b, sizeof b, "%d", a[q].i);
+              else if (sc == '0') snprintf(b, sizeof b, "%g", a[q].d); else if (sc == '1' || sc == '5' || sc == '6' || sc == '9') snprintf(b, sizeof b, "%d", a[q].i);
               else if (sc == '3') snprintf(b, sizeof b, "'%.40s'", WKT[a[q].u]); else if (sc == '4') snprintf(b, sizeof b, "\"%s\"", (const char*)a[q].p);
               else snprintf(b, sizeof b, "%u", a[q].u);
               dsc += (q ? "," : ""); dsc += b;
@@ -297,16 +312,28 @@ static int run_program(const std::string& line, int fd) {
         if (!fn) { say(fd, "H no such entry point %s\n", name.c_str()); return 3; }
         std::string sig = csig(name, shape, res, cls);
         Ret r; r.p = nullptr; r.i = 0; r.d = 0; r.out = 0;
+        // interruption: was this call asked to be interrupted?  (Interrupt.v: asked).  The callback is registered only while the
+        // call runs, so that the harness's own calls never trigger it; the request flag itself is never touched by the harness.
+        const bool i_asked = i_pending || (i_cb && i_budget > 0);
+        i_cb_calls = i_cb_requests = 0;
+        HC = (k % 3 == 2) ? H2 : H;
+        if (i_cb) GEOS_interruptRegisterCallback(i_callback);
         double t0 = now_ms(); arm(per_call_s);
-        if (sig == "wkt") {
-            r.p = GEOSGeomFromWKT_r(H, WKT[a[0].u]);
+        if (name == "GEOS_interruptRegisterCallback") {
+            if (a[0].i < 0) { i_cb = false; i_budget = 0; } else { i_cb = true; i_budget = a[0].i; }
+        } else if (name == "GEOS_interruptRequest") {
+            GEOS_interruptRequest(); i_pending = true;
+        } else if (name == "GEOS_interruptCancel") {
+            GEOS_interruptCancel(); i_pending = false;
+        } else if (sig == "wkt") {
+            r.p = GEOSGeomFromWKT_r(HC, WKT[a[0].u]);
             if (r.p && (a[0].u % 3) == 1) GEOSSetSRID_r(H, (GEOSGeometry*)r.p, PICK(SRID, a[0].u));
         } else if (sig == "coll") {
             // array constructors: the arrays hold every object argument after the fixed ones, whatever its type (ownership of ALL of
             // them passes to the library, also on failure: the bookkeeping below marks them consumed and LSan decides at exit)
             GEOSGeometry* arr[8]; unsigned n = 0;
             for (size_t q = 1; q < a.size() && n < 8; q++) arr[n++] = (GEOSGeometry*)a[q].p;
-            r.p = GEOSGeom_createCollection_r(H, a[0].i, arr, n);
+            r.p = GEOSGeom_createCollection_r(HC, a[0].i, arr, n);
             if (r.p) {      // the elements of a MULTI* must be of its member type (the object is unusable otherwise: destroy it here)
                 int ty = a[0].i; bool bad = false;
                 for (unsigned q = 0; q < n; q++) {
@@ -318,22 +345,29 @@ static int run_program(const std::string& line, int fd) {
         } else if (sig == "poly" || sig == "cpoly") {
             GEOSGeometry* holes[8]; unsigned n = 0;
             for (size_t q = 1; q < a.size() && n < 8; q++) holes[n++] = (GEOSGeometry*)a[q].p;
-            r.p = sig == "poly" ? GEOSGeom_createPolygon_r(H, (GEOSGeometry*)a[0].p, holes, n)
-                                : GEOSGeom_createCurvePolygon_r(H, (GEOSGeometry*)a[0].p, holes, n);
+            r.p = sig == "poly" ? GEOSGeom_createPolygon_r(HC, (GEOSGeometry*)a[0].p, holes, n)
+                                : GEOSGeom_createCurvePolygon_r(HC, (GEOSGeometry*)a[0].p, holes, n);
         } else if (sig == "ccurve") {
             GEOSGeometry* arr[8]; unsigned n = 0;
             for (size_t q = 0; q < a.size() && n < 8; q++) arr[n++] = (GEOSGeometry*)a[q].p;
-            r.p = GEOSGeom_createCompoundCurve_r(H, arr, n);
+            r.p = GEOSGeom_createCompoundCurve_r(HC, arr, n);
         } else if (name == "GEOSSTRtree_insert_r") {
-            GEOSSTRtree_insert_r(H, (GEOSSTRtree*)a[0].p, (const GEOSGeometry*)a[1].p, a[1].p);
+            GEOSSTRtree_insert_r(HC, (GEOSSTRtree*)a[0].p, (const GEOSGeometry*)a[1].p, a[1].p);
         } else if (sig == "query") {
-            query_hits = 0; GEOSSTRtree_query_r(H, (GEOSSTRtree*)a[0].p, (const GEOSGeometry*)a[1].p, query_cb, nullptr);
+            query_hits = 0; GEOSSTRtree_query_r(HC, (GEOSSTRtree*)a[0].p, (const GEOSGeometry*)a[1].p, query_cb, nullptr);
         } else if (sig == "iterate") {
-            query_hits = 0; GEOSSTRtree_iterate_r(H, (GEOSSTRtree*)a[0].p, query_cb, nullptr);
+            query_hits = 0; GEOSSTRtree_iterate_r(HC, (GEOSSTRtree*)a[0].p, query_cb, nullptr);
         } else {
             r = invoke(fn, sig, a);
         }
         arm(0); double ms = now_ms() - t0;
+        GEOS_interruptRegisterCallback(nullptr);
+        // ---- interruption oracle: a call fails with InterruptedException only if somebody asked; a delivery consumes the request
+        { bool interrupted = g_errs > 0 && strstr(g_msg, "nterrupt") != nullptr;
+          if (interrupted && !i_asked)
+              say(fd, "V %d %s interrupted-although-nobody-asked ctx=%s msg=%s\n", (int)k, cur_desc, HC == H2 ? "second" : "first", g_msg);
+          if (interrupted) { i_pending = false; i_delivered++; }
+          else if (i_delivered > 0 && name.compare(0, 14, "GEOS_interrupt") != 0 && !i_asked && (cons || cls == 'p')) i_after++; }
         // a result that is out of range by the harness's own count is not used further (the entry point accepted a bad index)
         if (r.p && (name == "GEOSGetGeometryN_r" || name == "GEOSGetInteriorRingN_r") && g_errs == 0) {
             int cntN = name == "GEOSGetGeometryN_r" ? GEOSGetNumGeometries_r(H, (const GEOSGeometry*)a[0].p) : GEOSGetNumInteriorRings_r(H, (const GEOSGeometry*)a[0].p);
@@ -387,6 +421,7 @@ static int run_program(const std::string& line, int fd) {
         }
         if (ms > 2000) say(fd, "S %d %s took-%.0f-ms\n", (int)k, cur_desc, ms);
     }
+    GEOS_interruptRegisterCallback(nullptr); GEOS_interruptCancel(); HC = H;
     cur_call = -2; snprintf(cur_desc, sizeof cur_desc, "cleanup");
     say(fd, "P -2 cleanup\n");
     // ---- clean-up: everything the harness still owns (interior pointers are not owned), dependents first
@@ -404,8 +439,9 @@ static int run_program(const std::string& line, int fd) {
             }
         }
     GEOSWKBWriter_destroy_r(H, WW);
+    GEOS_finish_r(H2);
     GEOS_finish_r(H);
-    say(fd, "E calls=%d errs=%d nulls=%d skipped=%d maxms=%.0f slow=%s\n", (int)calls.size(), nerr, nnull, nskip, maxms, slow.c_str());
+    say(fd, "E calls=%d errs=%d nulls=%d skipped=%d maxms=%.0f slow=%s intr=%d after=%d\n", (int)calls.size(), nerr, nnull, nskip, maxms, slow.c_str(), i_delivered, i_after);
     return 0;
 }
 
